@@ -4,7 +4,7 @@
 From MV Require Import Base RotLemmas Record Regex RegexLemmas Typing Circle Annot Py PyObj.
 From MV.Gen Require Import Src.
 From Coq Require Import String.
-Open Scope Z_scope.
+Local Open Scope Z_scope.
 
 (* ---------- slices ------------------------------------------------------- *)
 
